@@ -597,6 +597,13 @@ def gen_brentmax(ctx, cases, n):
             af, bf = bf, af               # a >= b → ValueError
         if rng.random() < 0.03:
             bf = af
+        e_clean = e
+        poisoned = af < bf and rng.random() < 0.25
+        if poisoned:
+            # +inf exactly at the two end points, negligible inside: an evaluation of f at an end point would make
+            # that end point the reported maximiser (theorem brentMax_box: f is only evaluated strictly inside)
+            e = e + C(1e-300) / ((X - C(af)) * (C(bf) - X))
+            ctx.count("brentmax:poisoned-end-points")
         args = e.arrays()
         ctx.count("brentmax:fam:" + fam)
         rep = {"op": "brent_max", "f": e.wire(), "a": af, "b": bf, "xtol": xtol, "maxiter": maxiter}
@@ -616,18 +623,21 @@ def gen_brentmax(ctx, cases, n):
         else:
             if not (af <= xf <= bf):
                 ctx.spec_fail("brent_max_outside", "brent_max: xf=%r outside [a,b]" % xf, rep)
+            if poisoned and (xf == af or xf == bf or math.isinf(fval) or math.isnan(fval)):
+                ctx.spec_fail("brent_max_endpoint_evaluated", "brent_max evaluated f at an end point (xf=%r, fval=%r)" % (xf, fval), rep)
             fchk = e.ev(xf, exact=False)
             if fx(fchk) != fx(fval) and not (fchk == 0 and fval == 0):
                 ctx.spec_fail("brent_max_fval", "brent_max: fval %r is not f(xf)=%r" % (fval, fchk), rep)
             if num > max(maxiter, 2):
                 ctx.spec_fail("brent_max_num", "brent_max: %d function calls with maxiter=%d" % (num, maxiter), rep)
-            if (flag == 1 and num < maxiter) or (flag == 0 and num >= maxiter and num != 1):
+            # exact bookkeeping (theorem brentMax_box): flag=1 <=> the cap stopped the loop, then num = max(maxiter, 2)
+            if (flag == 1 and num != max(maxiter, 2)) or (flag == 0 and not (num == 1 or num < maxiter)) or flag not in (0, 1):
                 ctx.spec_fail("brent_max_flag", "brent_max: status_flag=%d with num=%d maxiter=%d" % (flag, num, maxiter), rep)
             ctx.count("brentmax:flag%d" % flag)
             if flag == 0 and xstar is not None:
                 tol1 = Fraction(SQ) * abs(Fraction(xf)) + Fraction(xtol) / 3
                 bound = 2 * tol1 * SLACK
-                fs_, fx_ = e.ev(Fraction(xstar)), e.ev(Fraction(xf))
+                fs_, fx_ = e_clean.ev(Fraction(xstar)), e_clean.ev(Fraction(xf))
                 if abs(Fraction(xf) - xstar) <= bound:
                     pass
                 elif fs_ - fx_ <= 4 * Fraction(EPS) * abs(fs_):
@@ -718,6 +728,13 @@ def gen_neldermead(ctx, cases, n_cases):
         ([[3.0625]], [2.25], -0.5, [0.625], None, 1e-10, 1e-10, 1000),
         ([[7.8125, -1.0], [1.0, 7.3125]], [-2.375, -3.375], 0.0, [0.71875, -5.125],
          [[0.59375, 6.59375], [-9.125, 0.625]], 1e-10, 1e-8, 1000),
+        # witnesses of the PRE-repair shrink re-sort (`sort_ind[1:] = f_val[sort_ind[1:]].argsort() + 1`, repaired in
+        # /repo eb9b5d4): after one pass sort_ind was [2,1,2] (best slot = worst slot -> term_f -> success at nit=1) ...
+        ([[1.8125, 0.75], [0.75, 6.5]], [0.75, -4.0], 0.0, [2.5, -1.625], [[2.4, 2.501], [-1.725, -1.525]],
+         1e-10, 1e-10, 1000),
+        # ... and the old best kept in front of a better shrunk vertex (x is not the best row of final_simplex)
+        ([[5.0, -1.25, -1.0], [-1.25, 2.0625, 1.375], [-1.0, 1.375, 9.375]], [-3.875, -2.5, 0.125], 0.0,
+         [-6.75, -3.75, 0.5], [[-6.75, -3.75], [-3.85, -3.749], [0.5, 3.5]], 1e-10, 1e-10, 1000),
     ]
     for it in range(-len(fixed), n_cases):
         n = rng.choice([1, 2, 2, 3])
@@ -734,7 +751,8 @@ def gen_neldermead(ctx, cases, n_cases):
                     A[j][i] -= t
         c = [float(dyad(rng, -4, 4, 3)) for _ in range(n)]
         k = float(dyad(rng, -3, 3, 2))
-        kind = rng.choice(["free", "free", "box-inactive", "box-active", "box-active", "start-on-bound", "start-outside", "tight"])
+        kind = rng.choice(["free", "free", "box-inactive", "box-active", "box-active", "start-on-bound", "start-outside", "tight",
+                           "pinched", "pinched"])
         x0 = [ci + float(dyad(rng, -3, 3, 3)) for ci in c]
         if rng.random() < 0.2:
             x0[rng.randrange(n)] = 0.0          # the zdelt branch of the initial simplex
@@ -754,6 +772,9 @@ def gen_neldermead(ctx, cases, n_cases):
             bounds = [[xi, max(xi, ci) + 3.0] for ci, xi in zip(c, x0)]
         elif kind == "start-outside":
             bounds = [[xi + 0.5, xi + 5.0] for xi in x0]         # every initial vertex infeasible
+        elif kind == "pinched":
+            # x0 feasible, some of the other initial vertices cut off: shrink steps with a non-identity sort_ind
+            bounds = [[xi - rng.choice([0.0, 0.01, 0.1, 1.0, 3.0]), xi + rng.choice([0.001, 0.01, 0.1, 1.0, 3.0])] for xi in x0]
         elif kind == "tight":
             bounds = [[xi - 0.001, xi + abs(xi) * 0.02 + 0.0001] for xi in x0]
         tol_f = rng.choice([1e-10, 1e-10, 1e-8, 1e-6, 1e-3])
@@ -761,7 +782,7 @@ def gen_neldermead(ctx, cases, n_cases):
         max_iter = rng.choice([1000, 1000, 1000, 200, 30, 5, 1, 0])
         if it < 0:
             A, c, k, x0, bounds, tol_f, tol_x, max_iter = fixed[it + len(fixed)]
-            n, kind = len(c), "fixed"
+            n, kind = len(c), ("fixed" if it + len(fixed) < 2 else "fixed-witness")
         An, cn = np.array(A, dtype=np.float64).reshape(n, n), np.array(c, dtype=np.float64)
         x0n = np.array(x0, dtype=np.float64)
         bn = np.array(bounds, dtype=np.float64) if bounds is not None else np.array([[], []]).T
@@ -803,6 +824,28 @@ def gen_neldermead(ctx, cases, n_cases):
                         float(quad_exact(A, c, k, x)), float(best0)), rep)
         else:
             ctx.count("nm:all-initial-vertices-infeasible")
+        # observable traces of a corrupted sort_ind (counters; the property does not promise these)
+        # x must be the best row of final_simplex (theorem nm_sort_ind_sorting_permutation; judged on the doubles
+        # the code itself computed, i.e. the same evaluation order; exact ties allowed)
+        feas_rows = [v for v in simplex if feas(v)]
+        if feas_rows and feas(x):
+            fbest = max(float(_quad.py_func(np.array(v), An, cn, k)) for v in feas_rows)
+            if fbest > fun:
+                ctx.count("nm:x-not-best-row-of-final_simplex")
+                ctx.spec_fail("nm_x_not_best_row", "nelder_mead: a feasible row of final_simplex has f=%r > fun=%r "
+                              "(sort_ind does not sort f_val)" % (fbest, fun), rep)
+        elif feas_rows and not feas(x):
+            ctx.count("nm:x-not-best-row-of-final_simplex")
+            ctx.spec_fail("nm_x_not_best_row", "nelder_mead: x is infeasible although final_simplex has a feasible row", rep)
+        if ok and nit <= 2 and max_iter > 2:
+            ctx.count("nm:success-within-2-passes")
+        if kind == "fixed-witness":
+            # W1 / W2: the inputs on which the pre-repair shrink re-sort stopped with success at nit=1
+            if nit <= 2:
+                ctx.spec_fail("nm_shrink_resort_regression", "nelder_mead: witness of the old shrink re-sort stops after "
+                              "%d pass(es) again" % nit, rep)
+            else:
+                ctx.count("nm:witness-probe-passes")
         if nit > max_iter:
             ctx.spec_fail("nm_nit", "nelder_mead: nit=%d > max_iter=%d" % (nit, max_iter), rep)
         if ok and init_feas and tol_f <= 1e-8 and tol_x <= 1e-8:
@@ -835,6 +878,19 @@ def gen_neldermead(ctx, cases, n_cases):
         out = "%s %s %d %d %s" % (",".join(fx(v) for v in x), fx(fun), 1 if ok else 0, nit,
                                   ";".join(",".join(fx(v) for v in row) for row in simplex))
         cases.append(Case(line, out, nontrivial=(nit >= 2), tag="neldermead"))
+
+        def seen(mo, _impl, ctx=ctx):
+            parts = mo.split(" ")
+            if len(parts) != 4:
+                return "unreadable sort_ind trace"
+            if parts[1] == "0":
+                ctx.count("nm:model-final-sort_ind-not-a-permutation")
+            if parts[2] == "0":
+                ctx.count("nm:model-final-sort_ind-does-not-sort-f_val")
+            if parts[3] == "1":
+                ctx.count("nm:model-best-slot-equals-worst-slot")
+            return None
+        cases.append(Case(line + " trace=sind", "", nontrivial=False, cmp=seen, tag="nm-sort_ind-trace"))
 
 
 # ----------------------------------------------------------------------------------------
@@ -871,8 +927,8 @@ def run(ctx):
                 "non-trivial when the routine ran at least 2 iterations; distinct by request line. brent_max: unimodal "
                 "families (quadratic, quartic, Cauchy, asymmetric rational, boundary maxima, monotone, flat). nelder_mead: "
                 "concave quadratics k-(x-c)'A(x-c), n=1..3, A SPD dyadic (30% non-symmetric), free / inactive box / "
-                "active box / start on a bound / start outside / tight box, max_iter 0..1000, plus 2 fixed probes of the "
-                "reported findings")
+                "active box / start on a bound / start outside / tight / pinched box, max_iter 0..1000, plus 2 fixed probes "
+                "of the known findings and the 2 witnesses of the repaired shrink re-sort (must run > 2 passes, x best row)")
     gen_brackets(ctx, cases, ctx.n(250, 3000))
     gen_open(ctx, cases, ctx.n(200, 2500))
     gen_brentmax(ctx, cases, ctx.n(300, 4000))
